@@ -230,8 +230,17 @@ class OperatorWorld(World):
             return {"k": "eq", "a": a, "b": b}
         kk = rng.choice(["mf_mul", "mf_mul", "mf_collapse", "mf_commute", "mf_commute"])
         if kk == "mf_collapse":
-            nq = rng.randint(1, 4)
+            nq = rng.randint(1, 4) if rng.random() < 0.7 else rng.choice([9, 16, 31, 32, 33, 34, 40, 63, 64, 65, 70])
             rows = [[rng.randint(0, 3) for _ in range(nq)] for _ in range(rng.randint(1, 6))]
+            if nq > 8:       # wide registers: sparse words, some differing only in the first / last columns
+                base = [0] * nq
+                for q in rng.sample(range(nq), 3):
+                    base[q] = rng.randint(1, 3)
+                rows = []
+                for _ in range(rng.randint(2, 6)):
+                    r = list(base)
+                    r[rng.choice([0, 1, nq - 1, nq - 2, rng.randrange(nq)])] = rng.randint(0, 3)
+                    rows.append(r)
             if len(rows) > 2 and rng.random() < 0.7:
                 rows[-1] = list(rows[0])
                 rows[1] = list(rows[0])
@@ -241,8 +250,19 @@ class OperatorWorld(World):
                 facs[-1] = [-c.real, -c.imag]
                 facs[1] = 0.0
             return {"k": kk, "rows": rows, "factors": facs}
-        return {"k": kk, "ta": self._gen_terms(rng, "qubit") or [[[[0, "Z"]], 1.0]], "tb": self._gen_terms(rng, "qubit") or [[[[0, "X"]], 1.0]],
-                "single_b": rng.random() < 0.6, "resolved": rng.random() < 0.5}
+        op = {"k": kk, "ta": self._gen_terms(rng, "qubit") or [[[[0, "Z"]], 1.0]], "tb": self._gen_terms(rng, "qubit") or [[[[0, "X"]], 1.0]],
+              "single_b": rng.random() < 0.6, "resolved": rng.random() < 0.5}
+        if rng.random() < 0.25:
+            # wide register: shift some of the words to high qubit indices (array form on >= 33 / >= 64 columns)
+            hi = rng.choice([8, 31, 32, 33, 40, 63, 64, 70])
+            for key in ("ta", "tb"):
+                for t in op[key]:
+                    for f in t[0]:
+                        if rng.random() < 0.5:
+                            f[0] = hi - f[0]
+                    seen = set()
+                    t[0][:] = [f for f in t[0] if not (f[0] in seen or seen.add(f[0]))]
+        return op
 
     # -- execution ----------------------------------------------------------------------------------------------------
     def _push(self, obj, kind, val, attrs):
